@@ -1,5 +1,5 @@
 (* C15: the Huffman encoder model (encode.rs): output = concatenated RFC codes + shortest ones padding. *)
-From H3V Require Import Base.Bytes Base.BytesLemmas Gen.GenHuffDec Gen.GenHuffEnc
+From H3V Require Import Base.Bytes Base.BytesLemmas Gen.GenHuffDec Gen.GenHuffEnc Gen.GenBitwin
   Spec.RFC7541Huffman Spec.HuffmanKnown Model.Huffman
   Proofs.C15Finite Proofs.BitsLemmas Proofs.HuffmanWalk Proofs.HuffmanStrict Proofs.HuffmanDecodeProofs Proofs.HuffmanEncodeFacts.
 From Coq Require Import ZifyBool ZifyNat ZifyN.
@@ -92,6 +92,7 @@ Proof. intros ->. apply skipn_app_exact. Qed.
 
 Lemma put_parts_spec parts : forall rest e,
   parts_ok parts rest = true -> wf_bytes (he_buf e) -> bw_bit (he_pos e) < 8 ->
+  8 * len (he_buf e) < 2 ^ 32 ->
   let p := pos_end (he_pos e) in
   (p + N.to_nat rest <= 8 * length (he_buf e))%nat ->
   all_ones (skipn p (bits_of_bytes (he_buf e))) = true ->
@@ -100,7 +101,7 @@ Lemma put_parts_spec parts : forall rest e,
     bits_of_bytes (he_buf e') = firstn p (bits_of_bytes (he_buf e)) ++ row_parts_bits parts rest ++
                                 repeat true (8 * length (he_buf e) - p - N.to_nat rest).
 Proof.
-  induction parts as [|part ps IH]; intros rest e Hok Hwf Hbit p Hin Hones.
+  induction parts as [|part ps IH]; intros rest e Hok Hwf Hbit Hsz p Hin Hones.
   - cbn [parts_ok] in Hok. apply N.eqb_eq in Hok. subst rest. cbn [put_parts row_parts_bits app].
     exists e. split; [reflexivity|]. split; [assumption|]. split; [assumption|].
     split; [unfold p; lia|]. split; [reflexivity|].
@@ -112,6 +113,7 @@ Proof.
     cbn [put_parts row_parts_bits].
     set (c := if rest <? 8 then rest else 8) in *.
     assert (Hc : 1 <= c <= 8 /\ c <= rest) by (unfold c; destruct (N.ltb_spec rest 8); lia).
+    rewrite forwards_chk_ok by (unfold len in Hsz; fold p; lia).
     destruct (forwards_facts c (he_pos e)) as (Fbit & Fpos & Fcnt & Fend).
     set (pos1 := forwards c (he_pos e)) in *. fold p in Fpos, Fend.
     destruct (write_bits_spec (he_buf e) pos1 part Hwf Fbit ltac:(lia) Hok2) as (buf1 & Hw & Hwf1 & Hlen1 & Hbits1).
@@ -120,6 +122,7 @@ Proof.
     rewrite Hw. rewrite Fpos, Fcnt in Hbits1. rewrite Fcnt.
     set (e1 := {| he_pos := pos1; he_buf := buf1 |}).
     destruct (IH (rest - c) e1 Hok3 Hwf1 Fbit) as (e' & He' & Hwf' & Hbit' & Hend' & Hlen' & Hbits').
+    { cbn [he_buf e1]. unfold len in *. rewrite Hlen1. exact Hsz. }
     { cbn [he_pos he_buf e1]. rewrite Fend, Hlen1. lia. }
     { cbn [he_pos he_buf e1]. rewrite Fend, Hbits1.
       rewrite app_assoc, skipn_app_exact'; [apply all_ones_repeat|].
@@ -148,13 +151,16 @@ Proof.
   exists 0%nat. split; [lia|reflexivity].
 Qed.
 
-Lemma ensure_free_space_spec n e B : enc_inv e B -> 1 <= n ->
-  let e1 := ensure_free_space n e in
+Lemma ensure_free_space_spec n e B : enc_inv e B -> 1 <= n -> N.of_nat (length B) + n + 8 < 2 ^ 32 ->
+  exists e1, ensure_free_space n e = Ok e1 /\
   he_pos e1 = he_pos e /\ wf_bytes (he_buf e1) /\
   exists K, bits_of_bytes (he_buf e1) = B ++ repeat true K /\ (N.to_nat n <= K)%nat /\ (K - N.to_nat n < 8)%nat.
 Proof.
-  intros (Hwf & Hbit & Hend & k & Hk & Hbits) Hn e1. unfold e1, ensure_free_space.
+  intros (Hwf & Hbit & Hend & k & Hk & Hbits) Hn Hsz. unfold ensure_free_space.
+  change (2 ^ 32) with 4294967296 in Hsz.
+  rewrite forwards_chk_ok by (change (2 ^ 32) with 4294967296; lia).
   destruct (forwards_facts n (he_pos e)) as (F1bit & F1pos & F1cnt & F1end).
+  rewrite forwards_chk_ok by (change (2 ^ 32) with 4294967296; lia).
   destruct (forwards_facts 0 (forwards n (he_pos e))) as (F2bit & F2pos & F2cnt & F2end).
   set (er := forwards 0 (forwards n (he_pos e))) in *.
   assert (Hpos : bitpos (bw_byte er) (bw_bit er) = (length B + N.to_nat n)%nat) by lia.
@@ -162,28 +168,33 @@ Proof.
   { rewrite <- bits_of_bytes_length, Hbits, app_length, repeat_length. reflexivity. }
   unfold bitpos in Hpos.
   destruct (N.ltb_spec (bw_byte er) (len (he_buf e))) as [Hlt|Hge].
-  - split; [reflexivity|]. split; [assumption|]. exists k. split; [assumption|]. unfold len in Hlt. lia.
-  - cbn [he_pos he_buf]. split; [reflexivity|]. split; [apply wf_bytes_app; split; [assumption|apply wf_bytes_ff]|].
+  - exists e. split; [reflexivity|]. split; [reflexivity|]. split; [assumption|]. exists k. split; [assumption|]. unfold len in Hlt. lia.
+  - unfold bw_byte_width, bw_reserve_mul. change (2 ^ 32) with 4294967296.
+    destruct (N.leb_spec 4294967296 (7 * bw_byte er)) as [Hov|_]; [lia|].
+    eexists. split; [reflexivity|].
+    cbn [he_pos he_buf]. split; [reflexivity|]. split; [apply wf_bytes_app; split; [assumption|apply wf_bytes_ff]|].
     set (m := N.to_nat (bw_byte er - len (he_buf e) + (if 0 <? bw_bit er then 1 else 0))).
     exists (k + 8 * m)%nat. rewrite bits_of_bytes_app, Hbits, bits_of_ff, <- app_assoc, <- repeat_app_plus.
     split; [reflexivity|]. unfold len in *. destruct (N.ltb_spec 0 (bw_bit er)); lia.
 Qed.
 
-Lemma put_spec x e B : x < 256 -> enc_inv e B ->
+Lemma put_spec x e B : x < 256 -> enc_inv e B -> N.of_nat (length (B ++ code_bits x)) + 8 < 2 ^ 32 ->
   exists e', put x e = Ok e' /\ enc_inv e' (B ++ code_bits x).
 Proof.
-  intros Hx Hinv. unfold put, nth_n.
+  intros Hx Hinv Hsz. unfold put, nth_n.
   destruct (enc_row x Hx) as (n & parts & Hrow & Hok & Hrbits). rewrite Hrow.
   assert (Hnlen : length (code_bits x) = N.to_nat n).
   { rewrite <- Hrbits. apply row_parts_bits_length. exact Hok. }
   assert (Hn : 1 <= n) by (pose proof (code_bits_len x ltac:(lia)); lia).
-  destruct (ensure_free_space_spec n e B Hinv Hn) as (Hpos & Hwf1 & K & Hbits1 & HK1 & HK2).
+  rewrite app_length in Hsz.
+  destruct (ensure_free_space_spec n e B Hinv Hn ltac:(lia)) as (e1 & He1 & Hpos & Hwf1 & K & Hbits1 & HK1 & HK2).
+  rewrite He1.
   destruct Hinv as (_ & Hbit & Hend & _).
-  set (e1 := ensure_free_space n e) in *.
   assert (Hlen1 : (8 * length (he_buf e1) = length B + K)%nat).
   { rewrite <- bits_of_bytes_length, Hbits1, app_length, repeat_length. reflexivity. }
   destruct (put_parts_spec parts n e1 Hok Hwf1 ltac:(rewrite Hpos; exact Hbit))
     as (e' & He' & Hwf' & Hbit' & Hend' & Hlen' & Hbits').
+  { unfold len. change (2 ^ 32) with 4294967296 in *. lia. }
   { rewrite Hpos, Hend. lia. }
   { rewrite Hpos, Hend, Hbits1, skipn_app_exact. apply all_ones_repeat. }
   exists e'. split; [exact He'|].
@@ -193,28 +204,18 @@ Proof.
   rewrite Hbits', Hbits1, firstn_app_exact, Hrbits, <- app_assoc. f_equal. f_equal. f_equal. lia.
 Qed.
 
-Lemma put_all_spec s : forall e B, wf_bytes s -> enc_inv e B ->
+Lemma put_all_spec s : forall e B, wf_bytes s -> enc_inv e B -> N.of_nat (length (B ++ codes s)) + 8 < 2 ^ 32 ->
   exists e', put_all s e = Ok e' /\ enc_inv e' (B ++ codes s).
 Proof.
-  induction s as [|x s IH]; intros e B Hwf Hinv.
+  induction s as [|x s IH]; intros e B Hwf Hinv Hsz.
   - exists e. cbn [put_all codes flat_map]. rewrite app_nil_r. auto.
   - apply wf_bytes_cons in Hwf as [Hx Hwf]. cbn [put_all].
-    destruct (put_spec x e B Hx Hinv) as (e1 & He1 & Hinv1). rewrite He1.
-    destruct (IH e1 _ Hwf Hinv1) as (e' & He' & Hinv'). exists e'. split; [exact He'|].
+    rewrite codes_cons, app_assoc in Hsz.
+    destruct (put_spec x e B Hx Hinv) as (e1 & He1 & Hinv1).
+    { rewrite app_length in Hsz. lia. }
+    rewrite He1.
+    destruct (IH e1 _ Hwf Hinv1 Hsz) as (e' & He' & Hinv'). exists e'. split; [exact He'|].
     rewrite codes_cons, app_assoc. exact Hinv'.
-Qed.
-
-(* B3 / T4a: the encoder never fails and its output is a valid RFC 7541 5.2 encoding of s
-   (concatenated codes, then fewer than 8 one bits up to the octet boundary) *)
-Theorem hpack_encode_valid s : wf_bytes s ->
-  exists e, hpack_encode s = Ok e /\ wf_bytes e /\ valid_huff (bits_of_bytes e) s /\
-            (8 * length e < length (codes s) + 8)%nat.
-Proof.
-  intros Hwf. unfold hpack_encode.
-  destruct (put_all_spec s henc_new [] Hwf enc_inv_new) as (e' & He' & Hw & _ & _ & k & Hk & Hbits).
-  rewrite He'. exists (he_buf e'). split; [reflexivity|]. split; [assumption|]. cbn [app] in Hbits. split.
-  - split; [assumption|]. exists (repeat true k). rewrite repeat_length. repeat split; [assumption|lia|apply all_ones_repeat].
-  - rewrite <- bits_of_bytes_length, Hbits, app_length, repeat_length. lia.
 Qed.
 
 Lemma codes_length s : wf_bytes s -> (length (codes s) <= 30 * length s)%nat.
@@ -222,6 +223,21 @@ Proof.
   induction s as [|x s IH]; intros Hwf; [cbn; lia|].
   apply wf_bytes_cons in Hwf as [Hx Hwf]. rewrite codes_cons, app_length. cbn [length].
   pose proof (code_bits_len x ltac:(lia)). specialize (IH Hwf). lia.
+Qed.
+
+(* B3 / T4a: the encoder never fails and its output is a valid RFC 7541 5.2 encoding of s
+   (concatenated codes, then fewer than 8 one bits up to the octet boundary) *)
+Theorem hpack_encode_valid s : wf_bytes s -> enc_fits s ->
+  exists e, hpack_encode s = Ok e /\ wf_bytes e /\ valid_huff (bits_of_bytes e) s /\
+            (8 * length e < length (codes s) + 8)%nat.
+Proof.
+  intros Hwf Hfit. unfold hpack_encode.
+  destruct (put_all_spec s henc_new [] Hwf enc_inv_new) as (e' & He' & Hw & _ & _ & k & Hk & Hbits).
+  { cbn [app]. pose proof (codes_length s Hwf). unfold enc_fits, len in Hfit.
+    change (2 ^ 26) with 67108864 in Hfit. change (2 ^ 32) with 4294967296. lia. }
+  rewrite He'. exists (he_buf e'). split; [reflexivity|]. split; [assumption|]. cbn [app] in Hbits. split.
+  - split; [assumption|]. exists (repeat true k). rewrite repeat_length. repeat split; [assumption|lia|apply all_ones_repeat].
+  - rewrite <- bits_of_bytes_length, Hbits, app_length, repeat_length. lia.
 Qed.
 
 Lemma hpack_encode_fits s e : wf_bytes s -> len s < 2 ^ 26 -> (8 * length e < length (codes s) + 8)%nat -> fits_u32 e.
@@ -234,7 +250,7 @@ Qed.
 Theorem hpack_roundtrip s : wf_bytes s -> len s < 2 ^ 26 ->
   exists e, hpack_encode s = Ok e /\ hpack_decode e = Ok s.
 Proof.
-  intros Hwf Hlen. destruct (hpack_encode_valid s Hwf) as (e & He & Hwe & Hv & Hel).
+  intros Hwf Hlen. destruct (hpack_encode_valid s Hwf Hlen) as (e & He & Hwe & Hv & Hel).
   exists e. split; [assumption|].
   apply hpack_decode_lax; [assumption|exact (hpack_encode_fits s e Hwf Hlen Hel)|]. apply lax_split. left. exact Hv.
 Qed.
